@@ -37,9 +37,26 @@ def run_guarded(ctx, mod, replay):
         except common.Infra as e:
             with open(res, "wb") as fh:
                 pickle.dump({"infra": str(e)}, fh)
-        except BaseException:
-            with open(res, "wb") as fh:
-                pickle.dump({"infra": "unexpected exception in harness:\n" + traceback.format_exc()}, fh)
+        except BaseException as e:
+            tb = traceback.extract_tb(e.__traceback__)
+            in_impl = any(("bioscrape/" in fr.filename or "lineage/" in fr.filename or fr.filename.startswith(common.REPO)) for fr in tb[-4:])
+            if in_impl:
+                # the implementation raised on an input the generators consider valid: a failure of the
+                # property on that input (it did not hold there), reported with the input as replay
+                case = None
+                try:
+                    case = json.load(open(ctx.case_file))
+                except Exception:
+                    pass
+                ctx.cov["evaluations"] = max(ctx.cov["evaluations"], 1)
+                ctx.violation("exception/%s" % type(e).__name__,
+                              "the implementation raised %s: %s on the input in the replay" % (type(e).__name__, str(e)[:200]),
+                              {"case": case, "traceback": traceback.format_exc()[-1500:]})
+                with open(res, "wb") as fh:
+                    pickle.dump({k: getattr(ctx, k) for k in ("violations", "known_hits", "broken", "cov", "nontrivial", "notes")}, fh)
+            else:
+                with open(res, "wb") as fh:
+                    pickle.dump({"infra": "unexpected exception in harness:\n" + traceback.format_exc()}, fh)
         finally:
             sys.stdout.flush()
             sys.stderr.flush()
